@@ -559,3 +559,205 @@ func specOpt6OK(code int, v string, kind int) bool {
 //@   loop 0 invariant[pos] ref(buf.Buffer.data) == ref(data) && optPos6(buf, data) >= 0 && optPos6(buf, data) <= len(data) && len(buf.Buffer.data) == len(data) - optPos6(buf, data) && buf.err == nil && optPos6(buf, data)%16 == 0
 //@   loop 0 invariant[input] ref(op) != ref(buf) && ref(op) != ref(buf.Buffer) && ref(op.DHCP4oDHCP6Servers) != ref(buf) && ref(op.DHCP4oDHCP6Servers) != ref(buf.Buffer)
 //@   loop 0 invariant[list] (fresh(op.DHCP4oDHCP6Servers) || (ref(op.DHCP4oDHCP6Servers) == ref(old(op.DHCP4oDHCP6Servers)) && off(op.DHCP4oDHCP6Servers) == off(old(op.DHCP4oDHCP6Servers)) && cap(op.DHCP4oDHCP6Servers) == cap(old(op.DHCP4oDHCP6Servers)) && len(op.DHCP4oDHCP6Servers) >= len(old(op.DHCP4oDHCP6Servers)))) && (op.DHCP4oDHCP6Servers == nil || allocated(op.DHCP4oDHCP6Servers)) && len(op.DHCP4oDHCP6Servers) <= cap(op.DHCP4oDHCP6Servers)
+
+// ---------- C02: encoders: the emitted bytes are the RFC wire layout of the field values ----------
+
+// specByte is known to the engine by name (one byte with value n mod 256)
+func specByte(n int) string { return string([]byte{byte(n)}) }
+func specZeros(n int) string {
+	if n <= 0 {
+		return ""
+	}
+	return string(make([]byte, n))
+}
+
+// big-endian encodings of 16/32-bit unsigned values
+func specEnc16(v int) string { return specByte(v/256) + specByte(v) }
+func specEnc32(v int) string {
+	return specByte(v/16777216) + specByte(v/65536) + specByte(v/256) + specByte(v)
+}
+
+// specSecs: a duration in whole seconds as written by Duration.Marshal (rounded half up; callers keep d >= 0 and below 2^32 s)
+func specSecs(d int) int { return (d + 500000000) / 1000000000 }
+
+// specIP16: the 16-byte form of an address field: itself when 16 bytes, IPv4-mapped when 4 bytes, zeros otherwise (write16)
+func specIP16(s string) string {
+	if len(s) == 16 {
+		return s
+	}
+	if len(s) == 4 {
+		return specZeros(10) + specByte(255) + specByte(255) + s
+	}
+	return specZeros(16)
+}
+
+// specTo16: net.IP.To16 as a byte string ("" = nil)
+func specTo16(s string) string {
+	if len(s) == 16 {
+		return s
+	}
+	if len(s) == 4 {
+		return specZeros(10) + specByte(255) + specByte(255) + s
+	}
+	return ""
+}
+
+// specEncTiles: (2-byte length, value)* for the items from index i on
+//@ contract specEncTiles
+//@   decreases len(ss) - i
+func specEncTiles(ss []string, i int) string {
+	if i < 0 || i >= len(ss) {
+		return ""
+	}
+	return specEnc16(len(ss[i])) + ss[i] + specEncTiles(ss, i+1)
+}
+
+// specEncIPs: concatenation of the 16-byte forms (To16) of the addresses from index i on
+//@ contract specEncIPs
+//@   decreases len(ss) - i
+func specEncIPs(ss []string, i int) string {
+	if i < 0 || i >= len(ss) {
+		return ""
+	}
+	return specTo16(ss[i]) + specEncIPs(ss, i+1)
+}
+
+//@ contract (*optElapsedTime).ToBytes
+//@   ensures[layout] string(result) == specEnc16((int(op.ElapsedTime) + 5000000) / 10000000)
+//@   requires op.ElapsedTime >= 0 && int(op.ElapsedTime) <= 4000000000000000000
+
+//@ contract (*optInformationRefreshTime).ToBytes
+//@   ensures[layout] string(result) == specEnc32(specSecs(int(op.InformationRefreshtime)))
+//@   requires secsOK(op.InformationRefreshtime)
+
+//@ contract (*OptStatusCode).ToBytes
+//@   ensures[layout] string(result) == specEnc16(int(op.StatusCode)) + op.StatusMessage
+
+//@ contract (*OptRemoteID).ToBytes
+//@   ensures[layout] string(result) == specEnc32(int(op.EnterpriseNumber)) + string(op.RemoteID)
+
+//@ contract (*optClientLinkLayerAddress).ToBytes
+//@   ensures[layout] string(result) == specEnc16(int(op.LinkLayerType)) + string(op.LinkLayerAddress)
+
+//@ contract (*OptNetworkInterfaceID).ToBytes
+//@   ensures[layout] string(result) == specByte(int(op.Typ)) + specByte(int(op.Major)) + specByte(int(op.Minor))
+
+//@ contract (*optRelayPort).ToBytes
+//@   ensures[layout] string(result) == specEnc16(int(op.DownstreamSourcePort))
+
+//@ contract (optBootFileURL).ToBytes
+//@   ensures[layout] string(result) == op.url
+
+//@ contract (*optInterfaceID).ToBytes
+//@   ensures[layout] string(result) == string(op.ID)
+
+//@ contract (*OptionGeneric).ToBytes
+//@   ensures[layout] string(result) == string(og.OptionData)
+
+//@ contract (*Opt4RDNonMapRule).ToBytes
+//@   ensures[layout] string(result) == specByte(ite(op.HubAndSpoke, 128, 0) + ite(op.TrafficClass != nil, 1, 0)) + specByte(ite(op.TrafficClass != nil, int(*op.TrafficClass), 0)) + specEnc16(int(op.DomainPMTU))
+
+//@ contract (DUIDLLT).ToBytes
+//@   ensures[layout] string(result) == specEnc16(1) + specEnc16(int(d.HWType)) + specEnc32(int(d.Time)) + string(d.LinkLayerAddr)
+
+//@ contract (DUIDLL).ToBytes
+//@   ensures[layout] string(result) == specEnc16(3) + specEnc16(int(d.HWType)) + string(d.LinkLayerAddr)
+
+//@ contract (DUIDEN).ToBytes
+//@   ensures[layout] string(result) == specEnc16(2) + specEnc32(int(d.EnterpriseNumber)) + string(d.EnterpriseIdentifier)
+
+// secsOK(d): a duration Duration.Marshal writes faithfully: 0 .. 2^32-1 seconds
+//@ define secsOK(d) = d >= 0 && int(d) <= 4294967295000000000
+
+// lemmaEnc32Cat: appending the four bytes one by one is appending specEnc32 (associativity of concatenation)
+//@ contract lemmaEnc32Cat
+//@   ensures a + specEnc32(v) == a + specByte(v/16777216) + specByte(v/65536) + specByte(v/256) + specByte(v)
+func lemmaEnc32Cat(a string, v int) {}
+
+//@ contract (Duration).Marshal
+//@   use lemmaEnc32Cat(string(buf.Buffer.data), specSecs(int(d.Duration)))
+//@   requires lexOK(buf) && secsOK(d.Duration)
+//@   modifies buf.Buffer, buf.Buffer.data[len(buf.Buffer.data):cap(buf.Buffer.data)]
+//@   ensures lexGrown(buf)
+//@   ensures[layout] string(buf.Buffer.data) == old(string(buf.Buffer.data)) + specEnc32(specSecs(int(d.Duration)))
+
+//@ contract write16
+//@   requires lexOK(b) && (ip == nil || (ref(ip) != ref(b) && ref(ip) != ref(b.Buffer)))
+//@   modifies b.Buffer, b.Buffer.data[len(b.Buffer.data):cap(b.Buffer.data)]
+//@   ensures lexGrown(b)
+//@   ensures[layout] old(ip == nil || ref(ip) != ref(b.Buffer.data)) ==> string(b.Buffer.data) == old(string(b.Buffer.data)) + specIP16(old(string(ip)))
+
+//@ contract (*OptUserClass).ToBytes
+//@   let S = seq(op.UserClasses)
+//@   requires forall i int :: {op.UserClasses[i]} 0 <= i && i < len(op.UserClasses) ==> len(op.UserClasses[i]) < 65536
+//@   ensures[layout] string(result) == specEncTiles(S, 0)
+//@   loop 0 invariant[lexer] lexOK(buf) && buf.err == nil && (ref(buf.Buffer.data) == 0 || fresh(buf.Buffer.data))
+//@   loop 0 invariant[input] seq(op.UserClasses) == S && rangeval == op.UserClasses
+//@   loop 0 invariant[work] string(buf.Buffer.data) + specEncTiles(S, rangeindex+1) == specEncTiles(S, 0)
+
+//@ contract (*OptVendorClass).ToBytes
+//@   let S = seq(op.Data)
+//@   requires forall i int :: {op.Data[i]} 0 <= i && i < len(op.Data) ==> len(op.Data[i]) < 65536
+//@   ensures[layout] string(result) == specEnc32(int(op.EnterpriseNumber)) + specEncTiles(S, 0)
+//@   loop 0 invariant[lexer] lexOK(buf) && buf.err == nil && (ref(buf.Buffer.data) == 0 || fresh(buf.Buffer.data))
+//@   loop 0 invariant[input] seq(op.Data) == S && rangeval == op.Data
+//@   loop 0 invariant[work] string(buf.Buffer.data) + specEncTiles(S, rangeindex+1) == specEnc32(int(op.EnterpriseNumber)) + specEncTiles(S, 0)
+
+//@ contract (*optDNS).ToBytes
+//@   let S = seq(op.NameServers)
+//@   ensures[layout] string(result) == specEncIPs(S, 0)
+//@   loop 0 invariant[lexer] lexOK(buf) && buf.err == nil && (ref(buf.Buffer.data) == 0 || fresh(buf.Buffer.data))
+//@   loop 0 invariant[input] seq(op.NameServers) == S && rangeval == op.NameServers
+//@   loop 0 invariant[work] string(buf.Buffer.data) + specEncIPs(S, rangeindex+1) == specEncIPs(S, 0)
+
+//@ contract (*OptDHCP4oDHCP6Server).ToBytes
+//@   let S = seq(op.DHCP4oDHCP6Servers)
+//@   ensures[layout] string(result) == specEncIPs(S, 0)
+//@   loop 0 invariant[lexer] lexOK(buf) && buf.err == nil && (ref(buf.Buffer.data) == 0 || fresh(buf.Buffer.data))
+//@   loop 0 invariant[input] seq(op.DHCP4oDHCP6Servers) == S && rangeval == op.DHCP4oDHCP6Servers
+//@   loop 0 invariant[work] string(buf.Buffer.data) + specEncIPs(S, rangeindex+1) == specEncIPs(S, 0)
+
+// containers: the fixed header in front of the nested option list
+//@ contract (*OptIANA).ToBytes
+//@   requires secsOK(op.T1) && secsOK(op.T2)
+//@   ensures[header] len(result) >= 12 && string(result)[0:4] == string(op.IaId[:]) && string(result)[4:8] == specEnc32(specSecs(int(op.T1))) && string(result)[8:12] == specEnc32(specSecs(int(op.T2)))
+
+//@ contract (*OptIAPD).ToBytes
+//@   requires secsOK(op.T1) && secsOK(op.T2)
+//@   ensures[header] len(result) >= 12 && string(result)[0:4] == string(op.IaId[:]) && string(result)[4:8] == specEnc32(specSecs(int(op.T1))) && string(result)[8:12] == specEnc32(specSecs(int(op.T2)))
+
+//@ contract (*OptIATA).ToBytes
+//@   ensures[header] len(result) >= 4 && string(result)[0:4] == string(op.IaId[:])
+
+//@ contract (*OptIAAddress).ToBytes
+//@   requires secsOK(op.PreferredLifetime) && secsOK(op.ValidLifetime)
+//@   ensures[header] len(result) >= 24 && string(result)[0:16] == specIP16(string(op.IPv6Addr)) && string(result)[16:20] == specEnc32(specSecs(int(op.PreferredLifetime))) && string(result)[20:24] == specEnc32(specSecs(int(op.ValidLifetime)))
+
+//@ contract (*OptIAPrefix).ToBytes
+//@   requires secsOK(op.PreferredLifetime) && secsOK(op.ValidLifetime)
+//@   ensures[header] len(result) >= 25 && string(result)[0:4] == specEnc32(specSecs(int(op.PreferredLifetime))) && string(result)[4:8] == specEnc32(specSecs(int(op.ValidLifetime)))
+//@   ensures[prefix] op.Prefix == nil ==> string(result)[8:25] == specZeros(17)
+//@   ensures[prefix-ip] op.Prefix != nil ==> string(result)[9:25] == specIP16(string(op.Prefix.IP))
+
+//@ contract (*OptVendorOpts).ToBytes
+//@   ensures[header] len(result) >= 4 && string(result)[0:4] == specEnc32(int(op.EnterpriseNumber))
+
+//@ contract (*OptFQDN).ToBytes
+//@   requires op.DomainName != nil
+//@   ensures[header] len(result) >= 1 && string(result)[0:1] == specByte(int(op.Flags))
+
+//@ contract (*Message).ToBytes
+//@   ensures[header] len(result) >= 4 && string(result)[0:1] == specByte(int(m.MessageType)) && string(result)[1:4] == string(m.TransactionID[:])
+
+//@ contract (*RelayMessage).ToBytes
+//@   ensures[header] len(result) >= 34 && string(result)[0:1] == specByte(int(r.MessageType)) && string(result)[1:2] == specByte(int(r.HopCount)) && string(result)[2:18] == specIP16(string(r.LinkAddr)) && string(result)[18:34] == specIP16(string(r.PeerAddr))
+
+//@ contract (*optRelayMsg).ToBytes
+//@   requires op.Msg != nil
+
+//@ contract (OptionCodes).ToBytes
+//@   ensures[length] len(result) == 2*len(o)
+//@   ensures[layout] forall i int :: {o[i]} 0 <= i && i < len(o) ==> string(result)[2*i:2*i+2] == specEnc16(int(o[i]))
+//@   loop 0 invariant[lexer] lexOK(buf) && buf.err == nil && (ref(buf.Buffer.data) == 0 || fresh(buf.Buffer.data))
+//@   loop 0 invariant[length] len(buf.Buffer.data) == 2*(rangeindex+1) && rangeval == o
+//@   loop 0 invariant[layout] forall i int :: {o[i]} 0 <= i && i <= rangeindex ==> string(buf.Buffer.data)[2*i:2*i+2] == specEnc16(int(o[i]))
